@@ -254,6 +254,33 @@ def impl_violates_wrap(c, r, stats=None):
     return None
 
 
+def k1_as_k2(c):
+    """A case of the K1 class written as a case of the K2 class (same tree: the K1 harness gives every child cross size 20,
+    align-self start, and a fixed measure (meas, 7) in main/cross order): lets the general model (Model/FlexContainer.v with
+    determine_flex_base_size of Model/FlexBase.v) be compared with the implementation on the K1 cases too."""
+    row = c[0] in (0, 2)
+    w = [c[0], 0, c[1], -1, -1, c[2], 1, c[3], 0, 0, 0, 0] + list(c[4:12]) + [c[12], 0, c[13]]
+    for i in range(c[13]):
+        it = c[14 + i * ITEM_INTS:14 + (i + 1) * ITEM_INTS]
+        meas = fl(it[18])
+        ctx = [0, 0, 0]
+        if meas != 0.0:
+            ctx = [1, it[18], fbits(7.0)] if row else [1, fbits(7.0), it[18]]
+        w += (list(it[0:4]) + [1, fbits(20.0)] + list(it[4:8]) + [0, 0, 0, 0, 0, 0] + [it[8], it[9]] + list(it[10:14]) + [0, 0, 0, 0]
+              + [it[14], it[15], it[16], it[17], 0, 0, 0, 0] + [0, 0, 0, 0] + ctx)
+    assert len(w) == W_HEAD + W_ITEM * c[13]
+    return w
+
+
+def k2_result_as_k1(r, n):
+    if len(r) != 2 + 8 * n:
+        return r
+    out = [r[0], r[1]]
+    for i in range(n):
+        out += [r[2 + 8 * i], r[2 + 8 * i + 2]]
+    return out
+
+
 def shape(c):
     d = decode(c)
     return '%s/%s/n=%d' % (DIRS[d['dir']], 'None' if d['jc'] < 0 else JUSTIFY[d['jc']], d['n'])
@@ -389,6 +416,16 @@ def run(rep, tier, seed, replay=None):
                                 wcases, wimpl, wmodel)
         except RuntimeError as ex:
             rep.add_broken('correspondence', 'model evaluation (K2)', str(ex)[-1500:])
+    # the K1 cases through the general model as well (determine_flex_base_size of Model/FlexBase.v instead of the K1 prefix)
+    if cases and not rep.broken:
+        try:
+            g = run_model('C07g', 'From TV Require Import Model.FlexWrapRun.', 'run_wrap_case', [k1_as_k2(c) for c in cases], scope='Z', elem='list Z')
+            gm = [k2_result_as_k1(r, c[13]) for r, c in zip(g, cases)]
+            diff_results(rep, 'K1 cases vs the general model Model.FlexContainer.compute_flexbox_layout (FlexBase.determine_flex_base_size) over F32',
+                         cases, impl, gm)
+            rep.cov['k1_through_general_model'] = len(cases)
+        except RuntimeError as ex:
+            rep.add_broken('correspondence', 'model evaluation (K1 through the general model)', str(ex)[-1500:])
     whist = {}
     for c, st in zip(wcases, wstruct):
         d = wdecode(c)
